@@ -80,15 +80,16 @@ class C04(Prop):
         from aioswitcher.device.tools import sign_packet_with_crc_key as sign
         evs = []
         for t in scn["texts"]:
-            e = {"ev": "Sign", "in": _t(t), "raised": False, "out": [], "out2": []}
+            e = {"ev": "Sign", "in": _t(t), "raised": False, "out": [], "out2": [], "raised2": False}
             try:
-                o1 = sign(t)
-                o2 = sign(t)
-                e["out"] = _t(o1)
-                e["out2"] = _t(o2)
+                e["out"] = _t(sign(t))
             except Exception as x:  # noqa: BLE001 - the class is recorded, the spec only needs "raised"
                 e["raised"] = True
                 e["exc"] = type(x).__name__
+            try:                     # the very same input again, whatever happened the first time
+                e["out2"] = _t(sign(t))
+            except Exception:  # noqa: BLE001
+                e["raised2"] = True
             evs.append(e)
         return evs
 
